@@ -7,7 +7,7 @@
     struct uses for a field it lacks, a map visitor for a value it ignores, and unit-variant
     access for a union branch's payload. *)
 From Coq Require Import List NArith ZArith.
-Require Import Base Schema Varint Reader Target De AvroValue Encoding Denote Wf DeProofs DS4.
+Require Import Base Schema Varint Reader Target De AvroValue Encoding Denote Wf DeProofs DS4 DS5 DS6.
 Import ListNotations.
 
 (* skipping consumes exactly the encoding, leaves whatever follows untouched *)
@@ -43,3 +43,81 @@ Theorem C12_skip_as_read : forall Sc cfg e n rest pos ma fuel depth,
     (rd_pos st_ign - pos = N.of_nat (length (encode_e Sc n e)))%N /\
     rd_inp st_ign = rest.
 Proof. exact ignored_consumes_as_any. Qed.
+
+(* the embedded forms. A struct lacking fields: ANY set of target fields that is a subset of the
+   record's; every known field is decoded by its own target ([known_fields_ok]: each behaves as its
+   relation R says on a sub-encoding), every unknown field is skipped on exactly its encoding; the
+   reader ends exactly behind the record and the collected fields are exactly the known ones, in
+   record order *)
+Theorem C12_struct_lacking_fields : forall Sc cfg nm fields es sn fs (R : nat -> evalue -> dval -> Prop) d' favor fuel rest pos ma,
+  conforms Sc (FRecord nm fields) (erase (ERecord es)) = true ->
+  layout_ok (ERecord es) = true ->
+  within_limits Sc cfg (FRecord nm fields) (ERecord es) = true ->
+  (depth_cost (ERecord es) <= S d')%nat ->
+  counts_fit (ERecord es) = true ->
+  (Z.of_nat (length (encode_e Sc (FRecord nm fields) (ERecord es))) <= I64_MAX)%Z ->
+  NoDup (map fst fields) -> NoDup (map fst fs) -> incl (map fst fs) (map fst fields) ->
+  known_fields_ok Sc cfg fs R d' fields es ->
+  (de_fuel (ERecord es) <= fuel)%nat ->
+  exists l,
+    de Sc cfg fuel (FRecord nm fields) (S d') favor false (TStruct sn fs)
+       (mkRd (encode_e Sc (FRecord nm fields) (ERecord es) ++ rest) pos None ma)
+    = (Ok (DStruct l), mkRd rest (pos + N.of_nat (length (encode_e Sc (FRecord nm fields) (ERecord es)))) None ma)
+    /\ struct_out fs R fields es l
+    /\ map fst l = filter (fun nm0 => has_field nm0 fs) (map fst fields).
+Proof. exact struct_skips_missing_fields. Qed.
+
+(* a target with fewer fields and one with more end in the same reader state and agree on every
+   field both know *)
+Theorem C12_fewer_fields_agree : forall Sc cfg nm fields es sn1 sn2 fs1 fs2 (R : nat -> evalue -> dval -> Prop) d' favor fuel rest pos ma,
+  pre Sc cfg (FRecord nm fields) (S d') (ERecord es) ->
+  NoDup (map fst fields) -> NoDup (map fst fs1) -> NoDup (map fst fs2) ->
+  incl fs1 fs2 -> incl (map fst fs2) (map fst fields) ->
+  known_fields_ok Sc cfg fs2 R d' fields es ->
+  (de_fuel (ERecord es) <= fuel)%nat ->
+  exists l1 l2 st',
+    de Sc cfg fuel (FRecord nm fields) (S d') favor false (TStruct sn1 fs1)
+       (mkRd (encode_e Sc (FRecord nm fields) (ERecord es) ++ rest) pos None ma) = (Ok (DStruct l1), st') /\
+    de Sc cfg fuel (FRecord nm fields) (S d') favor false (TStruct sn2 fs2)
+       (mkRd (encode_e Sc (FRecord nm fields) (ERecord es) ++ rest) pos None ma) = (Ok (DStruct l2), st') /\
+    st' = mkRd rest (pos + N.of_nat (length (encode_e Sc (FRecord nm fields) (ERecord es)))) None ma /\
+    l1 = filter (known_by fs1) l2 /\ struct_out fs2 R fields es l2.
+Proof. exact struct_fewer_fields_agree. Qed.
+
+(* an ignored map value *)
+Theorem C12_map_ignored_values : forall Sc cfg k blocks d' favor fuel rest pos ma,
+  pre Sc cfg (FMap k) (S d') (EMap blocks) -> (de_fuel (EMap blocks) <= fuel)%nat ->
+  exists kvs,
+    de Sc cfg fuel (FMap k) (S d') favor false (TMap (THint HStr) TIgnored)
+       (mkRd (encode_e Sc (FMap k) (EMap blocks) ++ rest) pos None ma)
+    = (Ok (DMap kvs), mkRd rest (pos + N.of_nat (length (encode_e Sc (FMap k) (EMap blocks)))) None ma) /\
+    Forall2 (fun (kv : bytes * evalue) (dd : dval * dval) => erase_borrow (fst dd) = DStr (fst kv) /\ snd dd = DIgnored)
+            (flat_map snd blocks) kvs.
+Proof. exact map_ignored_values. Qed.
+
+(* a unit enum variant for a union branch: the payload is skipped exactly *)
+Theorem C12_union_unit_variant : forall Sc cfg ks i v en variants vname j k n' d' fuel rest pos ma,
+  pre Sc cfg (FUnion ks) (S d') (EUnion i v) ->
+  nth_error ks i = Some k -> fnode_at Sc k = Some n' ->
+  index_of (type_name n') (map fst variants) = Some j ->
+  nth_error variants j = Some (vname, TVUnit) ->
+  (de_fuel (EUnion i v) <= fuel)%nat ->
+  de Sc cfg fuel (FUnion ks) (S d') false false (TEnum en variants)
+     (mkRd (encode_e Sc (FUnion ks) (EUnion i v) ++ rest) pos None ma)
+  = (Ok (DEnum vname DUnit), mkRd rest (pos + N.of_nat (length (encode_e Sc (FUnion ks) (EUnion i v)))) None ma).
+Proof. exact union_branch_as_unit_variant. Qed.
+
+(* byte-size-prefixed blocks: with an ignoring consumer the bytes inside a sized block are never
+   inspected -- ARBITRARY block contents are jumped over by the advertised size *)
+Theorem C12_blocks_jump : forall Sc cfg k blocks d' favor fuel rest pos ma,
+  Forall raw_ok blocks -> (length blocks + 4 <= fuel)%nat ->
+  de Sc cfg fuel (FArray k) (S d') favor false TIgnored
+     (mkRd (flat_map raw_neg_block blocks ++ spec_long 0 ++ rest) pos None ma)
+  = (Ok DIgnored, mkRd rest (pos + N.of_nat (length (flat_map raw_neg_block blocks ++ spec_long 0))) None ma).
+Proof. exact ignored_array_jumps_raw_blocks. Qed.
+
+(* non-vacuity *)
+Check struct_skips_nested_array_instance.
+Check struct_fewer_fields_agree_instance.
+Check ignored_array_jumps_garbage_instance.
+Check union_unit_variant_instance.
